@@ -71,7 +71,12 @@ func runC03(r *Run) {
 		conns[i] = n.NewConn(dbName, ModeWAL, pageSize)
 		conns[i].wal = nil
 	}
-	ref, ok := walSetup(r, conns[0], uint32(t.Range(1, 4)))
+	initPages := uint32(t.Range(1, 4))
+	if maxPages >= 700 && t.Chance(1, 3) {
+		initPages = BigSize(t, maxPages)
+	}
+	r.Cfg["init_pages"] = initPages
+	ref, ok := walSetup(r, conns[0], initPages)
 	if !ok {
 		return
 	}
